@@ -706,16 +706,23 @@ class World(object):
             if self.cfg_template is not None:
                 cfgs.append(self.configs[self.cfg_template])
             for c in cfgs:
-                for f in REG_FIELDS:
-                    r = getattr(c, '_' + f, None)
+                for rf in REG_FIELDS:
+                    r = getattr(c, '_' + rf, None)
                     if isinstance(r, Fxp) and any(self.reg_reaches(r, b) for b in busy):
                         raise Skip('config register in flight')
         tpl = self.template
         vals = None
         if val is not None and not (tpl is not None and (w is None or f is None)):
             pass
+        ni = op.get('n_int') if op.get('dtype') is None else None
+        req = (s, w, f)
+        if ni is not None:
+            if tpl is not None:
+                raise Skip('n_int under a class template')
+            w2, f2 = self.with_n_int(True if s is None else s, w, f, ni)
+            req = (True if s is None else s, w2, f2)
         st.store = Store('new', vals=None, raw=raw, route='ctor', kw_modes=kw,
-                         fmt_req=(s, w, f), judge_cb=False)
+                         fmt_req=req, judge_cb=False)
         st.extra['val'] = val
         st.extra['tpl'] = tpl
         yield
@@ -738,6 +745,8 @@ class World(object):
         try:
             if op.get('dtype') is not None:
                 x = Fxp(None if val is None else V.carrier(val), dtype=op['dtype'], **args, **kw)
+            elif ni is not None:
+                x = Fxp(None if val is None else V.carrier(val), s, w, f, n_int=ni, **args, **kw)
             else:
                 x = Fxp(None if val is None else V.carrier(val), s, w, f, **args, **kw)
         finally:
